@@ -28,6 +28,19 @@ class Unspecified(Exception):
     must not assert anything about this case."""
 
 
+class Unknown(str):
+    """Exception message that the statement leaves open: compares equal to
+    any text."""
+
+    def __eq__(self, other):
+        return isinstance(other, str)
+
+    def __ne__(self, other):
+        return not isinstance(other, str)
+
+    __hash__ = str.__hash__
+
+
 class Missing(KeyError):
     pass
 
@@ -425,6 +438,9 @@ class Interp:
             v = ns.lookup(ref['n'], self)
         else:
             v = self.eval(ref['e'], ns)
+        if isinstance(v, BaseException) and v.args and \
+                isinstance(v.args[0], Unknown):
+            raise Unspecified('an unspecified exception message is shown')
         if 'null' in opts and not v and v != 0:
             return opts['null']
         s = mstr(v)
@@ -564,9 +580,10 @@ class Interp:
         except Unspecified:
             raise
         except Exception:
-            # "the rendered body as its message": a body that cannot be
-            # rendered is not covered by the statement
-            raise Unspecified('the message body of dtml-raise failed')
+            # "raises the named or computed exception class with the rendered
+            # body as its message": the class is stated unconditionally; what
+            # the message is when the body cannot be rendered is not
+            raise t(Unknown('?'))
         raise t(msg)
 
 
